@@ -194,6 +194,17 @@ def run_shard(shard, acc):
             if eq != (ka == kb) or (eq and hash(pa) != hash(pb)):
                 acc.violation("PAIRS", "equality", {"left": list(ka), "right": list(kb)},
                               expected=(ka == kb), observed="eq=%r hash_eq=%r" % (eq, hash(pa) == hash(pb)))
+        # is_relative_to over all pairs (parsed x parsed): true exactly for proper token-sequence prefixes -
+        # the token spaces contain string-prefix-related tokens ('1' vs '10', '~' vs '~0', 'a' vs 'a b') on purpose
+        rel_seqs = [[]] + [[t] for t in t1] + [[a, b] for a in REL_TOKS for b in REL_TOKS] + \
+                   [[a, b, c] for a in REL_TOKS[:6] for b in REL_TOKS[:6] for c in REL_TOKS[:6]]
+        rptrs = [(tuple(s), JSONPointer(rptr.encode(s))) for s in rel_seqs]
+        for (ka, pa), (kb, pb) in itertools.product(rptrs, rptrs):
+            want = len(kb) < len(ka) and ka[:len(kb)] == kb
+            got = pa.is_relative_to(pb)
+            acc.case("PAIRS", ("rel", ka, kb), outcome=want, nontrivial=want)
+            if got != want:
+                acc.violation("PAIRS", "is_relative_to", {"left": list(ka), "right": list(kb), "_kind": "is_relative_to"}, expected=want, observed=got)
         acc.count("pairs", 1)
     elif kind == "H":
         _, si, li, depth = shard
@@ -203,6 +214,7 @@ def run_shard(shard, acc):
         _chains(si, [a, b], depth, acc)
 
 
+REL_TOKS = ["a", "ab", "1", "10", "", "~", "~0", "/", "a b", "0", "01", "-"]
 STARTS = [[], ["a"], ["0"], ["~", "/"], ["é", ""]]
 JOIN_TOKS = ["a", "0", "1", "", "~", "/", "-", "+1", "01", "#", "é", "１", "a b", "~1"]
 
@@ -339,6 +351,12 @@ def check_case(sub, case, acc):
         from jsonpath import JSONPointer
 
         ka, kb = case["left"], case["right"]
+        if v_kind(case) == "is_relative_to":
+            pa, pb = JSONPointer(rptr.encode(ka)), JSONPointer(rptr.encode(kb))
+            want = len(kb) < len(ka) and ka[:len(kb)] == kb
+            if pa.is_relative_to(pb) != want:
+                acc.violation("PAIRS", "is_relative_to", case, expected=want, observed=not want)
+            return
         pa, pb = JSONPointer(rptr.encode(ka)), JSONPointer.from_parts(list(kb))
         eq = pa == pb
         if eq != (ka == kb) or (eq and hash(pa) != hash(pb)):
@@ -348,6 +366,10 @@ def check_case(sub, case, acc):
         if case.get("other") is not None:
             _check_seq(sub, case["other"], table, acc)
         _check_seq(sub, case["tokens"], table, acc)
+
+
+def v_kind(case):
+    return case.get("_kind")
 
 
 def shrink(sub, case):
